@@ -61,7 +61,7 @@ def run(C, R):
                     continue
                 # R2 instance: a granting path for a zero-permit request that is neither in unfair mode nor saw an
                 # empty queue (whether it spells out `permits -= 0` or not)
-                grant = path.ret == ('const', 1) or poll_variant(E, path) == 'Ready'
+                grant = path.ret == ('const', 1) or const_of(E, path.facts, path.ret) == 1 or poll_variant(E, path) == 'Ready'
                 if grant and gate(E, path, {}, ('const', 1)) is None and any(
                         isinstance(k, tuple) and k[:2] == ('bin', 'Eq') and ('const', 0) in k[2:4] and v == ('eq', 1)
                         and 'required_permits' in repr(k) for k, v in path.facts.items()):
